@@ -50,13 +50,24 @@ class ShapeDomain(EventsMixin, Domain):
   def on_branch(self, test, val, taken, node, st):
     # `k < d` false (with k <= d from _check_n_components) means k == d
     if isinstance(test, ast.Compare) and len(test.ops) == 1 and \
-            isinstance(test.ops[0], (ast.Lt, ast.GtE)):
+            isinstance(test.ops[0], (ast.Lt, ast.GtE, ast.Gt, ast.LtE,
+                                     ast.Eq, ast.NotEq)):
       l = self.eng.eval(test.left, st.copy(), self.eng.stack[-1])
       r = self.eng.eval(test.comparators[0], st.copy(), self.eng.stack[-1])
       a, b = dimval(l), dimval(r)
-      lt = isinstance(test.ops[0], ast.Lt)
-      if a == 'k' and b == 'd' and taken != lt:
-        self.event(st, ('fact', 'k==d'))
+      op = type(test.ops[0])
+      if (a, b) == ('d', 'k'):
+        # d OP k  ==  k OP' d
+        a, b = 'k', 'd'
+        op = {ast.Lt: ast.Gt, ast.Gt: ast.Lt, ast.LtE: ast.GtE,
+              ast.GtE: ast.LtE}.get(op, op)
+      if (a, b) == ('k', 'd'):
+        # with k <= d: (k < d) false, (k >= d) true, (k == d) true,
+        # (k != d) false all mean k == d
+        means_eq = {ast.Lt: False, ast.GtE: True, ast.Eq: True,
+                    ast.NotEq: False}
+        if op in means_eq and taken == means_eq[op]:
+          self.event(st, ('fact', 'k==d'))
     # n_components is None: no reduction requested, k == d
     if isinstance(test, ast.Compare) and len(test.ops) == 1 and \
             isinstance(test.ops[0], (ast.Is, ast.IsNot)) and \
